@@ -10,6 +10,8 @@
 //     (for 3..7 the real SortTracksAction(s) are run where the Stepper runs them)
 //   insert <ev>:<particle>:<pos> ...      efp   init   pre   cut   efs   reset   reseed
 //   interact <spec_0> ... <spec_{slots-1}>   spec = a|k|u|e followed by g/e/x per secondary
+//   stepper <maxEvents> <slots> <ev> ...   real Stepper::operator()(primaries) on a fresh plain
+//                                          problem: is the event id validated against max_events?
 #include <cmath>
 #include <cstdlib>
 #include <array>
@@ -25,7 +27,14 @@
 #include "celeritas/global/CoreState.hh"
 #include "celeritas/global/CoreTrackData.hh"
 #include "celeritas/global/CoreTrackView.hh"
+#include "celeritas/global/ActionLauncher.hh"
+#include "celeritas/global/Stepper.hh"
+#include "celeritas/global/TrackExecutor.hh"
+#include "celeritas/grid/ValueGridBuilder.hh"
 #include "celeritas/phys/InteractionApplier.hh"
+#include "celeritas/phys/Model.hh"
+#include "celeritas/phys/PhysicsParams.hh"
+#include "celeritas/phys/Process.hh"
 #include "celeritas/phys/ParticleView.hh"
 #include "celeritas/phys/Primary.hh"
 #include "celeritas/track/ExtendFromPrimariesAction.hh"
@@ -54,6 +63,157 @@ unsigned long x_to_tag(double x)
                      : outside_tag + std::lround((x - 1000.0) / pos_unit);
 }
 
+struct SlotScript
+{
+    char kind = 'a';
+    std::string secs;
+};
+
+// what the scripted models write for the oracle (shared with main)
+struct Board
+{
+    std::vector<SlotScript> script;
+    std::vector<char> alloc_failed;  // allocation returned null in the sampled interaction
+    std::vector<char> touched_b;  // the secondary-free model B was applied to this slot
+};
+
+// scripted interactor, written like the real ones: allocate first, fail when out of memory
+struct ScriptedInteractor
+{
+    Board* board;
+    Interaction operator()(CoreTrackView const& track) const
+    {
+        auto slot = track.track_slot_id().unchecked_get();
+        auto const& sc = board->script[slot];
+        if (sc.kind == 'u')
+            return Interaction::from_unchanged();
+        Span<Secondary> secondaries;
+        if (!sc.secs.empty())
+        {
+            auto allocate = track.make_physics_step_view().make_secondary_allocator();
+            Secondary* p = allocate(static_cast<size_type>(sc.secs.size()));
+            if (!p)
+            {
+                board->alloc_failed[slot] = 1;
+                return Interaction::from_failure();
+            }
+            secondaries = {p, sc.secs.size()};
+            for (std::size_t j = 0; j < sc.secs.size(); ++j)
+            {
+                if (sc.secs[j] == 'x')
+                {
+                    p[j] = {};  // as InteractionApplier does for a secondary below the cut
+                    continue;
+                }
+                p[j].particle_id = ParticleId(sc.secs[j] == 'g' ? 0 : 1);
+                p[j].energy = units::MevEnergy(5.);
+                p[j].direction = {1., 0., 0.};
+            }
+        }
+        Interaction result = sc.kind == 'k' ? Interaction::from_absorption() : Interaction{};
+        if (sc.kind != 'k')
+        {
+            result.energy = track.make_particle_view().energy();
+            result.direction = track.make_geo_view().dir();
+            result.action = Interaction::Action::scattered;
+        }
+        result.secondaries = secondaries;
+        return result;
+    }
+};
+
+// an interaction that needs no secondaries (like Rayleigh scattering): turns the track to +y
+struct NoSecondaryInteractor
+{
+    Board* board;
+    Interaction operator()(CoreTrackView const& track) const
+    {
+        board->touched_b[track.track_slot_id().unchecked_get()] = 1;
+        Interaction result;
+        result.energy = track.make_particle_view().energy();
+        result.direction = {0., 1., 0.};
+        result.action = Interaction::Action::scattered;
+        return result;
+    }
+};
+
+// Two real physics models registered through PhysicsParams (so that model ids, the
+// `physics-failure` action and `failure_action()` are the real ones): model A samples the
+// scripted interaction with the real InteractionApplier / StackAllocator, model B (the LAST
+// model) needs no secondaries.
+class ScriptModel final : public Model
+{
+  public:
+    ScriptModel(ActionId id, bool is_b, std::shared_ptr<Board> board)
+        : id_(id), is_b_(is_b), board_(std::move(board))
+    {
+    }
+    SetApplicability applicability() const final
+    {
+        Applicability a;
+        a.particle = ParticleId{0};
+        a.lower = units::MevEnergy{is_b_ ? 1e2 : 1e-4};
+        a.upper = units::MevEnergy{is_b_ ? 1e8 : 1e2};
+        return {a};
+    }
+    MicroXsBuilders micro_xs(Applicability) const final { return {}; }
+    void step(CoreParams const& params, CoreStateHost& state) const final
+    {
+        if (is_b_)
+        {
+            auto execute = make_action_track_executor(
+                params.ptr<MemSpace::native>(),
+                state.ptr(),
+                id_,
+                InteractionApplier{NoSecondaryInteractor{board_.get()}});
+            launch_action(*this, params, state, execute);
+        }
+        else
+        {
+            auto execute = make_action_track_executor(
+                params.ptr<MemSpace::native>(),
+                state.ptr(),
+                id_,
+                InteractionApplier{ScriptedInteractor{board_.get()}});
+            launch_action(*this, params, state, execute);
+        }
+    }
+    void step(CoreParams const&, CoreStateDevice&) const final {}
+    ActionId action_id() const final { return id_; }
+    std::string_view label() const final { return is_b_ ? "script-b" : "script-a"; }
+    std::string_view description() const final { return "scripted model"; }
+
+  private:
+    ActionId id_;
+    bool is_b_;
+    std::shared_ptr<Board> board_;
+};
+
+class ScriptProcess final : public Process
+{
+  public:
+    explicit ScriptProcess(std::shared_ptr<Board> board) : board_(std::move(board)) {}
+    VecModel build_models(ActionIdIter start_id) const final
+    {
+        VecModel result;
+        result.push_back(std::make_shared<ScriptModel>(*start_id++, false, board_));
+        result.push_back(std::make_shared<ScriptModel>(*start_id++, true, board_));
+        return result;
+    }
+    StepLimitBuilders step_limits(Applicability applic) const final
+    {
+        StepLimitBuilders builders;
+        builders[ValueGridType::macro_xs] = std::make_unique<ValueGridLogBuilder>(
+            applic.lower.value(), applic.upper.value(), std::vector<double>{1e-3, 1e-3});
+        return builders;
+    }
+    bool use_integral_xs() const final { return false; }
+    std::string_view label() const final { return "script"; }
+
+  private:
+    std::shared_ptr<Board> board_;
+};
+
 class Fix : public SimpleTestBase
 {
   public:
@@ -72,6 +232,17 @@ class Fix : public SimpleTestBase
         return std::make_shared<TrackInitParams>(input);
     }
     real_type secondary_stack_factor() const override { return factor_; }
+    SPConstPhysics build_physics() override
+    {
+        PhysicsParams::Input input;
+        input.options.secondary_stack_factor = factor_;
+        input.particles = this->particle();
+        input.materials = this->material();
+        input.processes = {std::make_shared<ScriptProcess>(board)};
+        input.action_registry = this->action_reg().get();
+        return std::make_shared<PhysicsParams>(std::move(input));
+    }
+    std::shared_ptr<Board> board = std::make_shared<Board>();
 
     std::shared_ptr<CoreStepActionInterface const> find(std::string const& label)
     {
@@ -88,10 +259,23 @@ class Fix : public SimpleTestBase
     real_type factor_;
 };
 
-struct SlotScript
+// plain SimpleTestBase problem (Compton in Al) for the real Stepper: event-id validation
+class PlainFix : public SimpleTestBase
 {
-    char kind = 'a';
-    std::string secs;
+  public:
+    explicit PlainFix(size_type maxev) : maxev_(maxev) { this->disable_status_checker(); }
+    void TestBody() override {}
+    SPConstTrackInit build_init() override
+    {
+        TrackInitParams::Input input;
+        input.capacity = 4096;
+        input.max_events = maxev_;
+        input.track_order = TrackOrder::none;
+        return std::make_shared<TrackInitParams>(input);
+    }
+
+  private:
+    size_type maxev_;
 };
 
 struct World
@@ -100,6 +284,8 @@ struct World
     std::unique_ptr<CoreState<MemSpace::host>> state;
     std::shared_ptr<CoreStepActionInterface const> init, pre, cut, efs;
     std::vector<std::shared_ptr<CoreStepActionInterface const>> sorts;
+    std::vector<std::shared_ptr<CoreStepActionInterface const>> posts;  // post-step, by id
+    ActionId model_a, failure_id;
     size_type slots = 0, maxev = 0;
     bool poisoned = false;
 };
@@ -194,46 +380,6 @@ bool parse_dec(std::string const& s, unsigned long* out)
     return true;
 }
 
-// scripted interactor, written like the real ones: allocate first, fail when out of memory
-struct ScriptedInteractor
-{
-    SlotScript const* script;
-    Interaction operator()(CoreTrackView const& track) const
-    {
-        auto const& sc = script[track.track_slot_id().unchecked_get()];
-        if (sc.kind == 'u')
-            return Interaction::from_unchanged();
-        Span<Secondary> secondaries;
-        if (!sc.secs.empty())
-        {
-            auto allocate = track.make_physics_step_view().make_secondary_allocator();
-            Secondary* p = allocate(static_cast<size_type>(sc.secs.size()));
-            if (!p)
-                return Interaction::from_failure();
-            secondaries = {p, sc.secs.size()};
-            for (std::size_t j = 0; j < sc.secs.size(); ++j)
-            {
-                if (sc.secs[j] == 'x')
-                {
-                    p[j] = {};  // as InteractionApplier does for a secondary below the cut
-                    continue;
-                }
-                p[j].particle_id = ParticleId(sc.secs[j] == 'g' ? 0 : 1);
-                p[j].energy = units::MevEnergy(5.);
-                p[j].direction = {1., 0., 0.};
-            }
-        }
-        Interaction result = sc.kind == 'k' ? Interaction::from_absorption() : Interaction{};
-        if (sc.kind != 'k')
-        {
-            result.energy = track.make_particle_view().energy();
-            result.direction = track.make_geo_view().dir();
-            result.action = Interaction::Action::scattered;
-        }
-        result.secondaries = secondaries;
-        return result;
-    }
-};
 }  // namespace
 
 int main()
@@ -291,6 +437,7 @@ int main()
                     w.cut = w.fix->find("tracking-cut");
                     w.efs = w.fix->find("extend-from-secondaries");
                     w.sorts.clear();
+                    w.posts.clear();
                     {
                         auto const& reg = *w.fix->action_reg();
                         for (auto aid : range(ActionId{reg.num_actions()}))
@@ -298,9 +445,20 @@ int main()
                             if (auto sp = std::dynamic_pointer_cast<SortTracksAction const>(
                                     reg.action(aid)))
                                 w.sorts.push_back(sp);
+                            // every registered post-step action, in id order (as
+                            // ActionSequence runs them); the tracking cut is the `cut` op
+                            auto st = std::dynamic_pointer_cast<CoreStepActionInterface const>(
+                                reg.action(aid));
+                            if (st && st->order() == StepActionOrder::post
+                                && st->label() != "tracking-cut")
+                                w.posts.push_back(st);
                         }
+                        // ids looked up BY LABEL in the registry, never computed the way
+                        // PhysicsParamsScalars does
+                        w.model_a = reg.find_action("script-a");
+                        w.failure_id = reg.find_action("physics-failure");
                     }
-                    if (!w.init || !w.pre || !w.cut || !w.efs)
+                    if (!w.init || !w.pre || !w.cut || !w.efs || !w.model_a || !w.failure_id)
                     {
                         std::cout << "config missing-action\n";
                         continue;
@@ -311,6 +469,62 @@ int main()
                     res = "config ok stack "
                           + std::to_string(w.state->ref().physics.secondaries.capacity())
                           + " neutral " + (n0 ? "1" : "0") + (n1 ? "1" : "0") + dump(w);
+                }
+            }
+            else if (t[0] == "stepper" && t.size() >= 4 && t.size() <= 19)
+            {
+                unsigned long maxev = 0, slots = 0;
+                bool ok = parse_dec(t[1], &maxev) && parse_dec(t[2], &slots) && maxev >= 1
+                          && maxev <= 64 && slots >= 1 && slots <= 64;
+                std::vector<Primary> prims;
+                for (std::size_t i = 3; ok && i < t.size(); ++i)
+                {
+                    unsigned long ev = 0;
+                    // up to 10 digits: ids far beyond max_events ("huge")
+                    ok = !t[i].empty() && t[i].size() <= 10
+                         && t[i].find_first_not_of("0123456789") == std::string::npos;
+                    if (ok)
+                    {
+                        ev = std::stoul(t[i]);
+                        ok = ev < 4294967295ul;
+                    }
+                    if (ok)
+                    {
+                        Primary p;
+                        p.particle_id = ParticleId{0};
+                        p.energy = units::MevEnergy(1.0);
+                        p.position = {0, 0, 0};
+                        p.direction = {0, 0, 1};
+                        p.time = 0;
+                        p.event_id = EventId(static_cast<size_type>(ev));
+                        prims.push_back(p);
+                    }
+                }
+                if (!ok)
+                {
+                    res = "bad-op";
+                }
+                else
+                {
+                    PlainFix fix(static_cast<size_type>(maxev));
+                    StepperInput inp;
+                    inp.params = fix.core();
+                    inp.stream_id = StreamId{0};
+                    inp.num_track_slots = static_cast<size_type>(slots);
+                    Stepper<MemSpace::host> step(inp);
+                    try
+                    {
+                        auto r = step(make_span(prims));
+                        res = "stepper ok generated=" + std::to_string(r.generated)
+                              + " active=" + std::to_string(r.active);
+                    }
+                    catch (RuntimeError const& e)
+                    {
+                        std::string m = e.what();
+                        res = m.find("exceeds max_events") != std::string::npos
+                                  ? "stepper error-max-events"
+                                  : "stepper error-other";
+                    }
                 }
             }
             else if (!w.state)
@@ -456,52 +670,87 @@ int main()
                 {
                     auto const& params = w.fix->core()->host_ref();
                     auto& ref = w.state->ref();
-                    std::string failed, broken;
-                    InteractionApplier apply{ScriptedInteractor{script.data()}};
+                    auto& board = *w.fix->board;
+                    board.script = script;
+                    board.alloc_failed.assign(w.slots, 0);
+                    board.touched_b.assign(w.slots, 0);
+                    struct Snap
+                    {
+                        bool valid = false;
+                        real_type e = 0, dep = 0;
+                        Real3 dir{0, 0, 0}, pos{0, 0, 0};
+                        TrackStatus st = TrackStatus::inactive;
+                    };
+                    std::vector<Snap> snap(w.slots);
+                    // along-step + discrete selection, emulated: every valid track takes a step
+                    // and is handed to model A (the model that needs secondaries)
                     for (auto i : range(TrackSlotId{w.slots}))
                     {
                         CoreTrackView track(params, ref, i);
                         auto sim = track.make_sim_view();
                         if (!is_track_valid(sim.status()))
                             continue;
-                        sim.increment_num_steps();  // what the along-step action does
+                        sim.increment_num_steps();
                         if (script[i.get()].kind == 'e')
                         {
                             track.apply_errored();
                             continue;
                         }
-                        // snapshot for the impl-side oracle of C16 (failed interaction = no-op)
+                        auto& sn = snap[i.get()];
+                        sn.valid = true;
+                        sn.e = track.make_particle_view().energy().value();
+                        sn.dir = track.make_geo_view().dir();
+                        sn.pos = track.make_geo_view().pos();
+                        sn.dep = track.make_physics_step_view().energy_deposition().value();
+                        sn.st = sim.status();
+                        sim.post_step_action(w.model_a);
+                    }
+                    // the REAL post-step actions of the registry, in id order
+                    for (auto const& act : w.posts)
+                        act->step(*w.fix->core(), *w.state);
+                    // impl-side oracle of C16
+                    std::string failed, broken, wrong, foreign;
+                    auto add = [](std::string& s, std::string const& x) {
+                        s += (s.empty() ? "" : ",") + x;
+                    };
+                    for (auto i : range(TrackSlotId{w.slots}))
+                    {
+                        auto k = i.get();
+                        if (board.touched_b[k])
+                            add(foreign, std::to_string(k));
+                        if (!board.alloc_failed[k])
+                            continue;
+                        add(failed, std::to_string(k));
+                        CoreTrackView track(params, ref, i);
+                        auto sim = track.make_sim_view();
                         auto par = track.make_particle_view();
                         auto geo = track.make_geo_view();
                         auto phys = track.make_physics_step_view();
-                        auto e0 = par.energy().value();
-                        auto d0 = geo.dir();
-                        auto p0 = geo.pos();
-                        auto dep0 = phys.energy_deposition().value();
-                        auto st0 = sim.status();
-                        auto sz0 = phys.make_secondary_allocator().get().size();
-                        apply(track);
-                        bool is_failed
-                            = sim.post_step_action()
-                              == track.make_physics_view().scalars().failure_action();
-                        if (is_failed)
+                        auto const& sn = snap[k];
+                        if (sim.post_step_action() != w.failure_id)
                         {
-                            failed += (failed.empty() ? "" : ",") + std::to_string(i.get());
-                            bool same = par.energy().value() == e0 && geo.dir() == d0
-                                        && geo.pos() == p0
-                                        && phys.energy_deposition().value() == dep0
-                                        && sim.status() == st0 && phys.secondaries().empty()
-                                        && phys.make_secondary_allocator().get().size() == sz0
-                                        && sim.step_length() == 0;
-                            if (!same)
-                                broken += (broken.empty() ? "" : ",") + std::to_string(i.get());
+                            add(wrong,
+                                std::to_string(k) + "="
+                                    + std::to_string(id_to_int(sim.post_step_action())) + "/"
+                                    + std::to_string(id_to_int(w.failure_id)));
                         }
+                        bool same = sn.valid && par.energy().value() == sn.e
+                                    && geo.dir() == sn.dir && geo.pos() == sn.pos
+                                    && phys.energy_deposition().value() == sn.dep
+                                    && sim.status() == sn.st && phys.secondaries().empty()
+                                    && sim.step_length() == 0;
+                        if (!same)
+                            add(broken, std::to_string(k));
                     }
                     res = "interact F:" + (failed.empty() ? "-" : failed) + " stack "
                           + std::to_string(
                               ref.physics.secondaries.size[ItemId<size_type>{0}]);
+                    if (!wrong.empty())
+                        res += " FAILED-WRONG-ACTION:" + wrong;
                     if (!broken.empty())
                         res += " FAILED-NOT-NOOP:" + broken;
+                    if (!foreign.empty())
+                        res += " FOREIGN-MODEL-APPLIED:" + foreign;
                     res += dump(w);
                 }
             }
